@@ -53,6 +53,15 @@ func (s *sink) WritePacket(p *packet.Packet) (int, error) {
 }
 func (s *sink) Close() error { s.closed++; return errC }
 
+// sinkW is a packet writer that also has a Write method of its own (for example a type embedding a
+// bytes.Buffer): the adapter must still split slices into WritePacket calls.
+type sinkW struct {
+	sink
+	foreignWrites int
+}
+
+func (s *sinkW) Write(p []byte) (int, error) { s.foreignWrites++; return len(p), nil }
+
 type oneByte struct{ r io.Reader }
 
 func (o oneByte) Read(p []byte) (int, error) {
@@ -143,6 +152,8 @@ func mkReader(kind int, data []byte, failR int, r *gen.Rand) (io.Reader, string)
 
 func adapter(kind int, s *sink) (packet.Writer, string) {
 	switch kind {
+	case 4:
+		return packet.IOWriter(&sinkW{sink: sink{failAt: -1}}), "unused"
 	case 0:
 		return packet.IOWriter(s), "IOWriter(struct)"
 	case 1:
@@ -222,6 +233,84 @@ func doWrite(c *mon.Ctx, k, tail, failW, ad int, r *gen.Rand) {
 		}
 	}
 	c.Class(fmt.Sprintf("Write/k=%d/fail=%s/adapter=%d", k, failClass(failW, k), ad))
+	followUp(c, w, s, r, wt)
+}
+
+// followUp re-uses the same adapter for a clean Write and a clean ReadFrom of fresh data: whatever the
+// previous call did (failed packet write, reader failure in the middle of a packet) must not leak into them.
+func followUp(c *mon.Ctx, w packet.Writer, s *sink, r *gen.Rand, after wit) {
+	for round := 0; round < 2; round++ {
+		k := 1 + r.Intn(3)
+		data := r.Bytes(k * 188)
+		s.got, s.failAt = nil, -1
+		var n int64
+		var err error
+		op := "Write"
+		if round == 1 {
+			op = "ReadFrom"
+			n, err = w.(io.ReaderFrom).ReadFrom(bytes.NewReader(data))
+		} else {
+			var m int
+			m, err = w.Write(data)
+			n = int64(m)
+		}
+		c.Eval(1)
+		c.Count("followup." + op)
+		ok := err == nil && n == int64(len(data)) && len(s.got) == k
+		for i := 0; ok && i < k; i++ {
+			ok = bytes.Equal(s.got[i], data[i*188:(i+1)*188])
+		}
+		if !ok {
+			w2 := after
+			w2.Got = fmt.Sprintf("follow-up %s of %d packets on the same adapter: n=%d err=%v deliveries=%d", op, k, n, err, len(s.got))
+			w2.Want = "all packets delivered unmodified, full count, no error"
+			c.Fail("reuse:"+op+"-after-"+after.Op, fmt.Sprintf("a clean %s of %d packets on an adapter that was used before (previous call: %s, failing write %d, reader failure after %d bytes) returned n=%d err=%v with %d deliveries", op, k, after.Op, after.FailWrite, after.FailRead, n, err, len(s.got)), w2)
+			return
+		}
+	}
+}
+
+// foreignWrite: a sink that has its own Write method must still get WritePacket calls.
+func foreignWrite(c *mon.Ctx, r *gen.Rand) {
+	k := r.Intn(5)
+	tail := 0
+	if r.Chance(3) {
+		tail = 1 + r.Intn(187)
+	}
+	data := r.Bytes(k*188 + tail)
+	for kind := 0; kind < 2; kind++ {
+		s := &sinkW{sink: sink{failAt: -1}}
+		var w packet.Writer
+		name := "IOWriter(sink with its own Write)"
+		if kind == 0 {
+			w = packet.IOWriter(s)
+		} else {
+			w = packet.IOWriteCloser(s)
+			name = "IOWriteCloser(sink with its own Write)"
+		}
+		n, err := w.Write(data)
+		c.Eval(1)
+		wt := wit{Op: "Write", Packets: k, Tail: tail, FailWrite: -1, FailRead: -1, Adapter: name, Got: fmt.Sprintf("n=%d err=%v WritePacket calls=%d foreign Write calls=%d", n, err, len(s.got), s.foreignWrites)}
+		if tail != 0 {
+			if err != gots.ErrInvalidPacketLength || len(s.got) != 0 || s.foreignWrites != 0 {
+				c.Fail("Write:bad-length-not-rejected", "a slice whose length is not a multiple of 188 was not rejected by the adapter built around a sink that has its own Write method", wt)
+			}
+			continue
+		}
+		if err != nil || n != len(data) || len(s.got) != k || s.foreignWrites != 0 {
+			c.Fail("Write:adapter-bypassed", fmt.Sprintf("the adapter did not deliver %d packets through WritePacket for a sink that has its own Write method (%s)", k, wt.Got), wt)
+			continue
+		}
+		checkDeliveries(c, "Write", &s.sink, data, k, wt)
+		if rf, ok := w.(io.ReaderFrom); ok {
+			s.got = nil
+			n2, err2 := rf.ReadFrom(bytes.NewReader(data))
+			if err2 != nil || n2 != int64(len(data)) || len(s.got) != k {
+				c.Fail("ReadFrom:adapter-bypassed", fmt.Sprintf("ReadFrom on such an adapter delivered %d of %d packets (n=%d err=%v)", len(s.got), k, n2, err2), wt)
+			}
+		}
+	}
+	c.Class(fmt.Sprintf("foreign-write/k=%d/tail=%v", k, tail != 0))
 }
 
 func failClass(f, k int) string {
@@ -292,6 +381,7 @@ func doReadFrom(c *mon.Ctx, k, tail, failW, failR, rk, ad int, r *gen.Rand) {
 		}
 		c.Fail(sig, fmt.Sprintf("ReadFrom returned err=%v, expected %v (%s)", err, expErr, wt.Want), wt)
 	}
+	followUp(c, w, s, r, wt)
 	if c.Class(fmt.Sprintf("ReadFrom/k=%d/tail=%v/failW=%s/failR=%s/reader=%d", min(k, 4), tail != 0, failClass(failW, k), failRClass(failR, len(data)), rk)) && c.WantSample() && failW >= 0 && k > 2 {
 		c.Sample(func() interface{} { return wt })
 	}
@@ -325,6 +415,7 @@ func run(c *mon.Ctx) {
 	c.Floor("readfrom.writer_failure", 200)
 	c.Floor("readfrom.reader_failure", 500)
 	c.Floor("readfrom.partial_tail", 200)
+	c.Floor("followup.ReadFrom", 5000)
 	maxK := 20
 	c.Exhaustive("Write: k 0..20 x failing position -1..k x 4 tails x 4 adapters", int64(21*22/2+21)*16)
 	c.StreamSeedless("write-faults", maxK+1, func(k int, r *gen.Rand) {
@@ -372,5 +463,6 @@ func run(c *mon.Ctx) {
 		}
 		doReadFrom(c, k, tail, failW, failR, r.Intn(nReaderKinds), r.Intn(4), r)
 		doWrite(c, k, tail, failW, r.Intn(4), r)
+		foreignWrite(c, r)
 	})
 }
